@@ -30,6 +30,7 @@ func init() {
 		Run:         runC04,
 	})
 	ruleText["R04.18"] = "= R07.7 shared: the argument copier copies every settable value, whatever its kind: a slice, map, pointer or channel header is a value too, and the variable holding it can be assigned before the deferred call or goroutine reads it"
+	ruleText["R04.23"] = "= R05.11 shared: the receiver of a method value is copied when the method value is evaluated - the struct itself for a value receiver, also when it is reached through a pointer (the copy is made after the dereference)"
 	ruleText["R04.1"] = "same analysis as C01/R01.6 (multiple assignment: sources into fresh temporaries first)"
 	ruleText["R04.2"] = "same analysis as C01/R01.7 (multi-value return: operands before results)"
 	ruleText["R04.3"] = "same analysis as C05/R05.2 (slots of a new activation frame bound to fresh storage only)"
@@ -86,6 +87,16 @@ func runC04(c *Config, r *Report) {
 	c04R19(ic, r)
 	c04R21(ic, r)
 	c04R22(ic, r)
+	// R04.23: = R05.11: a method value of a value-receiver method holds a copy of the receiver
+	{
+		sub := newReport("C05")
+		c05R11(ic, sub)
+		for _, o := range sub.Obls {
+			o.Rule = "R04.23"
+			r.add(o)
+		}
+		r.Errors = append(r.Errors, sub.Errors...)
+	}
 	c04R20(ic, r, "R04.20")
 	copiersAlwaysCopy(ic, r, "R04.18")
 	{
